@@ -56,6 +56,7 @@ let () =
       | "M" :: perc :: gap :: t :: v :: ops ->
           let cfg = { perc = big_of_dec perc; gap = big_of_dec gap; tsz = tsz_f64 } in
           let st = ref { training = parse_set t; validation = parse_set v; clr_t = Z0; clr_v = Z0 } in
+          let limit = ref (8 * (List.length !st.training + List.length !st.validation) + 64) in
           let buf = Buffer.create 4096 in
           Buffer.add_string buf "OK";
           (try
@@ -87,6 +88,9 @@ let () =
               let name = if kind = "ev" then "ev" else List.hd (String.split_on_char ':' o) ^ ":" ^ List.nth (String.split_on_char ':' o) 1 in
               match step cfg opv !st ds with
               | None -> Buffer.add_string buf (" # " ^ name ^ " NONE"); raise Exit
+              | Some ((st1, ds1), r) when List.length st1.training + List.length st1.validation > !limit ->
+                  (* a regenerated model that duplicates examples grows exponentially: stop replaying *)
+                  Buffer.add_string buf (" # " ^ name ^ " GROWS"); raise Exit
               | Some ((st1, ds1), r) ->
                   st := st1;
                   let rs = match r with None -> "-" | Some true -> "1" | Some false -> "0" in
